@@ -34,7 +34,7 @@ def num_jobs(tier):
                 classes = [1, 2, 6, 7, 10, nd] if nd > 10 else [1, 2, 5, nd]
             for k in sorted(set(classes)):
                 caps = list(range(0, k + 4)) if tier == "thorough" else [0, k, k + 1, k + 2]
-                if tier == "quick" and ch == "uint8_t":
+                if ch == "uint8_t":
                     caps = [k, k + 1, k + 2]
                 base_defs = {"T_FMT": "%s2%sstr" % (name, pre), "T_PARSE": "%sstr2%s" % (pre, name),
                              "T_TYPE": ct, "T_SIGNED": sg, "T_CH": ch, "NDIG": k}
@@ -58,7 +58,9 @@ def num_jobs(tier):
                                 bases.add(c)
                     if tier == "thorough":
                         bases |= {lo + i * ((top - lo) // 8) for i in range(1, 8)}
-                    acaps = [k + 2] if tier == "quick" else [k + 1, k + 2, k + 3]
+                    acaps = [k + 2] if tier == "quick" else [k + 1, k + 2]
+                    if ch == "uint8_t" and tier == "thorough":
+                        bases = set(sorted(bases)[:3])
                     for bi, b in enumerate(sorted(bases)):
                         for cap in acaps:
                             out.append({
